@@ -297,10 +297,16 @@ if __name__ == '__main__':
             print('GENERATOR FAILED', b)
         sys.exit(1 if bad else 0)
     if cmd == 'build-all':
-        rc, out = build()
+        # build everything that builds (-k): a file that does not compile must not prevent the
+        # other properties' checks from running; each check rebuilds and reports its own targets
+        NPROC = min(NPROC, 8)
+        with Lock('coq'):
+            write_coqproject()
+            rc, out = sh('timeout 3000 make -k -f Makefile.coq -j%d 2>&1' % NPROC, cwd=COQ, timeout=3100)
         if rc != 0:
-            print(out[-4000:])
-        sys.exit(rc)
+            print('SETUP WARNING: some Coq files did not build (their checks will report it):')
+            print('\n'.join(l for l in out.split('\n') if 'Error' in l or l.startswith('File '))[-3000:])
+        sys.exit(0)
     if cmd == 'audit':
         h = audit()
         print('\n'.join(h))
